@@ -402,7 +402,7 @@ class Jacobian(probe.Probe):
     def _acquire(self, sm):
         """return signal's Jacobian"""
         xp = sm.array_module
-        zeros = xp.zeros(sm.shape)
+        zeros = xp.zeros_like(getattr(sm, self.probe))
         _variables = [var for var in self.variables if var != "magnitude"]
         # retrieve jacobian arrays except for magnitude
         arrays = [
@@ -445,7 +445,7 @@ class Hessian(probe.Probe):
     def _acquire(self, sm):
         """return signal's Hessian"""
         xp = sm.array_module
-        missing = xp.zeros(sm.shape)
+        missing = xp.zeros_like(getattr(sm, self.probe))
 
         arrays = []
         for v1 in self.variables1:
